@@ -44,8 +44,9 @@ impl Slot {
 
     /// Returns a double-ended iterator that yields all the slots in the window `self` is in.
     pub fn slots_in_window(self) -> impl DoubleEndedIterator<Item = Slot> {
+        // inclusive upper bound: `start + SLOTS_PER_WINDOW` overflows in the very last window
         let start = self.first_slot_in_window();
-        (start.0..start.0 + SLOTS_PER_WINDOW).map(Self)
+        (start.0..=start.0 + (SLOTS_PER_WINDOW - 1)).map(Self)
     }
 
     /// Returns an infinite iterator that yields all the slots after `self`.
@@ -61,9 +62,9 @@ impl Slot {
 
     /// Returns the last slow in the window this slot belongs to.
     pub const fn last_slot_in_window(&self) -> Slot {
-        let window = self.0 / SLOTS_PER_WINDOW;
-        let next_window = window + 1;
-        Self(next_window * SLOTS_PER_WINDOW - 1)
+        // computed from the window's first slot: `(window + 1) * SLOTS_PER_WINDOW` overflows
+        // in the very last window
+        Self(self.first_slot_in_window().0 + (SLOTS_PER_WINDOW - 1))
     }
 
     /// Returns true if `self` is the first slot in the window.
